@@ -199,7 +199,16 @@ def rule_randtoken(ctx):
                     inner = [x for x in w.events if x.kind == "call" and x.callee is not None and x.callee.key in toks and lp2 in x.loops
                              and not getattr(x, "inlined", False)]
                     if not inner:
-                        continue          # the loop does not touch the pointer: it is the same after the loop
+                        # the loop does not touch the pointer: it is the same after the loop.  (Where the pointer is assigned only by
+                        # statements the walker found unreachable on this path, the loop head still carries a forgotten copy of it:
+                        # that copy IS the unchanged pointer -- provided no feasible assignment to it exists in the loop.)
+                        if not is_method and tokname in getattr(lp2, "assigned", ()) and not any(
+                                x.kind == "assign" and x.name == tokname and lp2 in x.loops for x in w.events):
+                            hv0 = get_env_tok(lp2.head_env)
+                            tv0 = get_env_tok(ev.envsnap)
+                            if isinstance(hv0, Num) and isinstance(tv0, Num) and tv0.lin == cur:
+                                cur = hv0.lin
+                        continue
                     tv = get_env_tok(ev.envsnap)
                     if not isinstance(tv, Num) or tv.lin != cur:
                         # the loop may carry the pointer in another variable: the one whose loop-head value the first call receives
@@ -397,6 +406,26 @@ def rule_expo(ctx):
             ctx.ob("expo", lc, lc.node, "increment test of %s" % lc.name, "beyond the reserved range a step is taken when a fresh draw is below the increment probability",
                    False, "no decision of the counter kernel depends on a random draw: the counter never advances (or always advances) beyond the reserved range")
             return
+    from .rules_arith import log_counter_stepvar
+    stepvar = log_counter_stepvar(lc)
+
+    def _norm_key(key):
+        items, const = key
+        out = {}
+        for name, coef in items:
+            nm = name.split("#")[0]
+            if nm == stepvar:
+                nm = lc.params[0]          # the working copy the counter is stepped in stands for the counter
+            out[nm] = out.get(nm, 0) + coef
+        return tuple(sorted(out.items())), const
+    # the same power met on several paths (the loop is walked once per way of reaching it) is one power
+    seen_, uniq = set(), []
+    for t in pw1:
+        kk = _norm_key(t[3])
+        if kk not in seen_:
+            seen_.add(kk)
+            uniq.append(t)
+    pw1_all, pw1 = pw1, uniq
     if len(pw1) != 1 or len(pw2) != 1:
         ctx.ob("expo", lc, lc.node, "base ** exponent", "one power of base in the increment test and one in the decoder", None,
                "found %d / %d" % (len(pw1), len(pw2)))
@@ -408,6 +437,8 @@ def rule_expo(ctx):
         out = {}
         for name, coef in items:
             nm = name.split("#")[0]
+            if nm == stepvar:
+                nm = lc.params[0]
             out[nm] = out.get(nm, 0) + coef
         return out, const
     n1, n2 = norm(e1), norm(e2)
@@ -417,19 +448,20 @@ def rule_expo(ctx):
            "probability exponent is the negative of the decoder's exponent c - num_reserved (probability x value step == 1)", okk,
            "" if okk else "writer and reader disagree on the exponent")
     # the draw is compared as  rand < base**(-c')  (increment iff below)
-    br = [e for e in w1.events if e.kind == "branch" and any(t == pw1[0] for t in _cond_terms(e.cond))]
+    br = [e for e in w1.events if e.kind == "branch" and any(t in pw1_all for t in _cond_terms(e.cond))]
     res = []
-    incs = [e for e in w1.events if e.kind == "assign" and e.name == lc.params[0] and isinstance(getattr(e, "old", None), Num) and isinstance(e.value, Num)
+    incs = [e for e in w1.events if e.kind == "assign" and e.name == stepvar and isinstance(getattr(e, "old", None), Num) and isinstance(e.value, Num)
             and e.value.lin - e.old.lin == Lin.const(1)]
     for b in br:
         c = b.cond
+        pt = next((t for t in pw1_all if t in _cond_terms(c)), pw1[0])      # this path's instance of the power
         # `if draw < p: step` -- or the same decision spelled from the other side: `if not (draw < p): <no step>` / `if p <= draw: <no step>`,
         # i.e. the test is  p - draw <= 0  and the step sits on its FALSE arm
-        okc = c[0] == "flt" and len(c[1].c) == 2 and c[1].c.get(pw1[0]) == -1 and c[1].k == 0
+        okc = c[0] == "flt" and len(c[1].c) == 2 and c[1].c.get(pt) == -1 and c[1].k == 0
         want_pol = True
-        if not okc and c[0] in ("fle", "le") and len(c[1].c) == 2 and c[1].c.get(pw1[0]) == 1 and c[1].k == 0:
+        if not okc and c[0] in ("fle", "le") and len(c[1].c) == 2 and c[1].c.get(pt) == 1 and c[1].k == 0:
             okc, want_pol = True, False
-        rt = [t for t in c[1].c if t != pw1[0]] if okc else []
+        rt = [t for t in c[1].c if t != pt] if okc else []
         pols = {pol for e in incs for (nd, pol, _) in e.path if nd is b.node}
         okd = okc and rt and rt[0][0] == "call" and rt[0][1].startswith("_rand") and pols == {want_pol}
         res.append((bool(okd), "increment iff draw < base**(-c')" if okd else "the increment test is not `draw < base ** (-c')`: %s" % show_cond(c), fact_strs(b)))
